@@ -11,7 +11,7 @@ use serde_json::{json, Value};
 use std::sync::atomic::Ordering;
 use std::sync::Arc;
 
-pub const COUNTERS: &[&str] = &["histories", "operations", "moves_accepted", "illegal_moves_refused", "offers", "accepts_granted", "accepts_refused", "declares_attempted", "resignations", "results_reached", "post_result_operations_refused", "full_move_value_sweeps", "roots"];
+pub const COUNTERS: &[&str] = &["histories", "operations", "moves_accepted", "illegal_moves_refused", "offers", "accepts_granted", "accepts_refused", "declares_attempted", "resignations", "results_reached", "post_result_operations_refused", "full_move_value_sweeps", "roots", "long_prefix_histories"];
 
 pub const GAME_ROOTS: &[&str] = &[
     "rnbqkbnr/pppppppp/8/8/8/8/PPPPPPPP/RNBQKBNR w KQkq - 0 1",
@@ -183,7 +183,7 @@ fn depth_for(p: &RefPos, budget: f64, cap: u32) -> u32 {
     d
 }
 
-pub const RULE: &str = "histories = every sequence of operations up to depth d (d chosen per root so that menu^d stays within the budget: 3-4 on dense roots, up to 7 on roots with few moves) from 36 roots (start position, sparse endings, mate-in-one, stalemate-in-one, already mated, already stalemated, en passant, promotion, castling; each also colour-mirrored). Menu at each history: every legal move; a structured illegal set (pseudo-legal-but-illegal moves, wrong promotion field, enemy man, empty square, a move legal one ply earlier); offer_draw(W|B), accept_draw, declare_draw, resign(W|B); at depth <= 1 additionally all 20480 move values. After every operation: return value, result(), current_position(), side_to_move(), actions(), can_declare_draw() against the reference automaton; once a result exists every operation must be refused and change nothing. states = histories, transitions = operations executed. distinct_nontrivial = histories that end in a result";
+pub const RULE: &str = "histories = every sequence of operations up to depth d (d chosen per root so that menu^d stays within the budget: 3-4 on dense roots, up to 7 on roots with few moves) from 36 roots (start position, sparse endings, mate-in-one, stalemate-in-one, already mated, already stalemated, en passant, promotion, castling; each also colour-mirrored). Menu at each history: every legal move; a structured illegal set (pseudo-legal-but-illegal moves, wrong promotion field, enemy man, empty square, a move legal one ply earlier); offer_draw(W|B), accept_draw, declare_draw, resign(W|B); at depth <= 1 additionally all 20480 move values. After every operation: return value, result(), current_position(), side_to_move(), actions(), can_declare_draw() against the reference automaton; once a result exists every operation must be refused and change nothing. Additionally, from K+R v K roots quiet prefixes of 99..=102 half-moves (repetition-free C11 fillers, and a plain shuffle cycle that keeps a mate in one available throughout) are followed by every operation sequence of depth 2. states = histories, transitions = operations executed. distinct_nontrivial = histories that end in a result";
 
 pub fn run(tier: Tier) -> i32 {
     let run = Arc::new(Run::new("C10", tier, COUNTERS));
@@ -240,6 +240,54 @@ pub fn run(tier: Tier) -> i32 {
                 }
             }
         });
+    });
+    // long prefixes: a quiet, repetition-free history of 99..=101 half-moves (from the C11 filler)
+    // followed by EVERY operation sequence of depth 2 — game-ending moves, claims, offers and
+    // accepts right at the fifty-move boundary and after a result reached there
+    let long_roots: Vec<RefPos> = super::c11::FILLER_ROOTS.iter().skip(4).map(|f| RefPos::from_fen(f).expect("machinery: filler root")).collect();
+    // (a) per root the first 99..=101 plies of the self-avoiding C11 filler; (b) a plain four-ply
+    // shuffle cycle (rook h1-g1-h1 against king a8-b8-a8) repeated to 99..=102 plies, which keeps a
+    // mate in one available for White throughout (repetition is irrelevant here: the point is what a
+    // game accepts after a result reached late in a long quiet stretch)
+    let mut jobs2: Vec<(RefPos, Vec<GOp>)> = vec![];
+    for start in long_roots.iter() {
+        if let Some(full) = super::c11::build_history(start, &[], 101) {
+            for k in [99usize, 100, 101] {
+                jobs2.push((*start, full[..k].to_vec()));
+            }
+        }
+    }
+    {
+        let start = RefPos::from_fen("k7/8/1K6/8/8/8/8/7R w - - 0 1").expect("machinery: shuffle root");
+        let cyc: Vec<RMove> = ["h1g1", "a8b8", "g1h1", "b8a8"].iter().map(|m| RMove::parse_uci(m).unwrap()).collect();
+        for (st, mirror) in [(start, false), (start.mirror_v(), true)] {
+            for k in [99usize, 100, 101, 102] {
+                let h: Vec<GOp> = (0..k).map(|i| GOp::Move(if mirror { mirror_v_move(cyc[i % 4]) } else { cyc[i % 4] })).collect();
+                jobs2.push((st, h));
+            }
+        }
+    }
+    run.note("long_prefix_lengths", json!(jobs2.iter().map(|(s, h)| json!({"start": s.fen(), "plies": h.len()})).collect::<Vec<_>>()));
+    jobs2.par_iter().for_each(|(start, hist)| {
+        if run.has_violation() {
+            return;
+        }
+        let mut refg = RefGame::new(*start);
+        let mut lib = new_game(start).expect("machinery: long-prefix root");
+        let mut ops: Vec<GOp> = vec![];
+        for op in hist.iter() {
+            ops.push(*op);
+            run.transitions.fetch_add(1, Ordering::Relaxed);
+            if let Err(f) = step(&mut refg, &mut lib, op) {
+                run.report(Violation::new("C10", f.clause, &f.shape, format!("{}
+  start {}
+  operations ({})", f.detail, start.fen(), ops.len()), case_json(start, &ops)));
+                return;
+            }
+        }
+        let cx = Ctx { run: &run, start: *start };
+        run.add("long_prefix_histories", 1);
+        dfs(&cx, &refg, &lib, &mut ops, 2, None);
     });
     run.sample(json!({"kind": "history", "start": GAME_ROOTS[1], "ops": ["offer_draw(B)", "d8h4", "accept_draw"], "expect": "accept refused: the move mated, the game has a result"}));
     run.sample(json!({"kind": "history", "start": GAME_ROOTS[0], "ops": ["offer_draw(W)", "e2e4", "accept_draw", "resign(B)"], "expect": "accept granted (mover offered just before the move); resign refused afterwards"}));
